@@ -12,7 +12,8 @@ From Coq Require Import ZArith List Bool Lia Arith.
 Import ListNotations.
 From VF Require Import C05.Aspects C05.Lin.
 From VF Require Import C05.Scq C05.ScqAux C05.Lscq C05.ProofsScqInv C05.ProofsScqSafe C05.ProofsScqThr C05.ProofsScqThr2 C05.ProofsScqDead
-  C05.ProofsLscq C05.ProofsLscqStep C05.ProofsLscqShape C05.ProofsLscqSafe C05.ProofsLscqThm C05.ProofsLscqTime C05.ProofsLscqLin C05.ProofsLscqJus.
+  C05.ProofsLscq C05.ProofsLscqStep C05.ProofsLscqShape C05.ProofsLscqSafe C05.ProofsLscqThm C05.ProofsLscqTime C05.ProofsLscqLin C05.ProofsLscqJus C05.ProofsLscqTie C05.ProofsLscqMutant C05.ProofsLscqEx.
+From VF Require C05.Model.
 Open Scope Z_scope.
 
 (* (1) STRUCTURE.  In every reachable state (any schedule of threads 0..K-1, K <= n+1): at least one ring is linked,
@@ -157,10 +158,64 @@ Theorem C05_lscq_linearizable_bounded : forall n, 1 <= n -> forall K, Z.of_nat K
   qquiescent L -> fifo_linearizable (qhist enc (qtrace L)).
 Proof. exact lscq_linearizable. Qed.
 
+(* the closed bit must survive fixstate.  [grun n rs]: the queue-level machine of Lscq.v over an arbitrary ring step
+   function rs (grun n (step n) = qrun n by definition: gstep_faithful); [stepm]: Scq.step with ONE change, the
+   closed bit stripped from the tail word before fixstate's 'closed or normal' test, so that the CAS tail := head
+   of a dequeuer that overran a closed ring clears the bit (seeded change C05-13).  Under [reopen_schedule] (two
+   threads, n = 1: an enqueuer stalls inside ring 0 before its fetch-add; the other thread fills, closes, drains and
+   overruns ring 0 and moves q.head on) the mutant lets the stalled enqueuer store its value at the head of ring 0
+   after q.head has left it - Enqueue(2) returned, the following Dequeue answers empty, the history is not
+   linearizable, (2) and (4) fail - while the faithful machine sends that enqueuer round to ring 1 and the last
+   Dequeue returns 2 *)
+Theorem C05_lscq_needs_closed_bit :
+  (let L := grun 1 (stepm 1) (linit 1) reopen_schedule in
+   qanswers L = [(0%nat, QEnq 1 0 1); (1%nat, QEnq 3 1 1); (1%nat, QDeq (Some (0%nat, 1, 1))); (1%nat, QDeq (Some (1%nat, 1, 3)));
+                 (0%nat, QEnq 2 0 4); (1%nat, QDeq None)] /\
+   qquiescent L /\ qh L = 1%nat /\ closed (rings L 0%nat) = false /\ hd (rings L 0%nat) = 4 /\
+   wlog (rings L 0%nat) = [(4, 2); (1, 1)] /\ clog (rings L 0%nat) = [(1, 1)] /\
+   ~ fifo_linearizable (qhist enc_sq (qtrace L))) /\
+  (let L := qrun 1 (linit 1) reopen_schedule in
+   qanswers L = [(0%nat, QEnq 1 0 1); (1%nat, QEnq 3 1 1); (1%nat, QDeq (Some (0%nat, 1, 1))); (1%nat, QDeq (Some (1%nat, 1, 3)));
+                 (0%nat, QEnq 2 1 2); (1%nat, QDeq (Some (1%nat, 2, 2)))] /\
+   closed (rings L 0%nat) = true).
+Proof. exact (conj mutant_loses faithful_keeps). Qed.
+
+(* (7) TIE to the functional model (Model.v: the model C05_seq is about and that the correspondence runs execute
+   against the real code at ring size 65536).  [Ag i L rf nr qh qt mu pc es]: the queue state L has rings rf, nr
+   linked rings, q.head = qh, q.tail = qt, lock table mu, thread i at pc (everybody else idle) and has answered es so
+   far; [LSim M rf nr qh qt]: the functional queue M has nr - qh rings, its k-th ring is simulated by ring qh + k
+   (ProofsScqTie.Sim: head, tail, closed bit, threshold, every slot through cacheRemap16Byte), its tail index is its
+   last ring = qt - qh, and no thread is inside any ring.  One queue-level call executed by ONE thread of the
+   small-step machine with nobody else moving ends in a state that simulates the functional model's result state
+   and gives the functional model's answer (fuel exhaustion excluded), for every n >= 1, cl | n - including the
+   paths full ring -> close -> allocate -> link -> move tail, and empty ring -> reset threshold -> look again -> move
+   head; and so for every sequence of calls from the initial states: the small-step LSCQ run by one thread IS the
+   functional model. *)
+Theorem C05_lscq_solo_call : forall n cl, 1 <= n -> 1 <= cl -> (cl | n) ->
+  forall i fuel M o M' out L rf nrv qhv qtv tr,
+  Ag i L rf nrv qhv qtv (fun _ => None) QIdle tr -> LSim n cl M rf nrv qhv qtv ->
+  Model.lscq_step Z 0 n cl fuel M o = (M', out) -> out <> Model.OFuel ->
+  exists m L' rf' nrv' qhv' qtv' ev,
+    qrun n L (qlabel_of i o :: repeat (QLStep i) m) = L' /\
+    Ag i L' rf' nrv' qhv' qtv' (fun _ => None) QIdle (tr ++ [(i, ev)]) /\ LSim n cl M' rf' nrv' qhv' qtv' /\ qev_ok ev out.
+Proof. exact lsolo_call. Qed.
+Theorem C05_lscq_solo_run : forall n cl, 1 <= n -> 1 <= cl -> (cl | n) ->
+  forall i fuel ops M' outs,
+  lmseq n cl fuel (Model.lscq_init Z n) ops = Some (M', outs) ->
+  exists sched L' rf nrv qhv qtv es,
+    qrun n (linit n) sched = L' /\ Forall (qsolo_label i) sched /\
+    Ag i L' rf nrv qhv qtv (fun _ => None) QIdle es /\ LSim n cl M' rf nrv qhv qtv /\ Forall2 qev_ok (map snd es) outs.
+Proof. exact lsolo_run. Qed.
+(* non-vacuity of the premise: the functional model across a ring boundary, n = 2 *)
+Example C05_lscq_solo_nonvacuous :
+  option_map snd (lmseq 2 1 50 (Model.lscq_init Z 2)
+    [Model.Enq 1; Model.Enq 2; Model.Enq 3; Model.Deq; Model.Deq; Model.Deq; Model.Deq]) =
+  Some [Model.OEnq true; Model.OEnq true; Model.OEnq true; Model.ODeq (Some 1); Model.ODeq (Some 2); Model.ODeq (Some 3); Model.ODeq None].
+Proof. exact lscq_solo_nonvacuous. Qed.
+
 (* non-vacuity: n = 1, K = 2.  Thread 0 enqueues 1 and 2, thread 1 dequeues concurrently; Enqueue(2) finds ring 0
    full, closes it, fills and links ring 1; the consumer drains ring 0, resets its threshold, finds it empty again,
    moves q.head and takes 2 from ring 1 *)
-Fixpoint alt01 (k : nat) : list qlabel := match k with O => [] | S k' => QLStep 0 :: QLStep 1 :: alt01 k' end.
 Example C05_lscq_nonvacuous :
   let sched := [QLEnq 0 1] ++ repeat (QLStep 0) 8 ++ [QLEnq 0 2; QLDeq 1] ++ alt01 9 ++ [QLDeq 1] ++ alt01 12 ++ [QLDeq 1] ++ alt01 30 in
   let L := qrun 1 (linit 1) sched in
@@ -169,15 +224,7 @@ Example C05_lscq_nonvacuous :
     [(0%nat, QEnq 1 0 1); (1%nat, QDeq (Some (0%nat, 1, 1))); (0%nat, QEnq 2 1 1); (1%nat, QDeq (Some (1%nat, 1, 2)))] /\
   nr L = 2%nat /\ qh L = 1%nat /\ qt L = 1%nat /\ closed (rings L 0%nat) = true /\ closed (rings L 1%nat) = false /\
   qquiescent L.
-Proof.
-  cbv zeta. split; [|split; [vm_compute; reflexivity|repeat (split; [vm_compute; reflexivity|])]].
-  2:{ intros i. destruct i as [|[|i]]; vm_compute; reflexivity. }
-  intros l Hl.
-  assert (H : forallb (fun l => (qthread l <? 2)%nat)
-    ([QLEnq 0 1] ++ repeat (QLStep 0) 8 ++ [QLEnq 0 2; QLDeq 1] ++ alt01 9 ++ [QLDeq 1] ++ alt01 12 ++ [QLDeq 1] ++ alt01 30) = true)
-    by (vm_compute; reflexivity).
-  rewrite forallb_forall in H. apply Nat.ltb_lt. apply H. exact Hl.
-Qed.
+Proof. exact lscq_nonvacuous. Qed.
 
 Print Assumptions C05_lscq_invariant.
 Print Assumptions C05_lscq_retired_rings_dead.
@@ -190,3 +237,6 @@ Print Assumptions C05_lscq_lin_if_empty_justified.
 Print Assumptions C05_lscq_encoding.
 Print Assumptions C05_lscq_empty_justified_bounded.
 Print Assumptions C05_lscq_linearizable_bounded.
+Print Assumptions C05_lscq_needs_closed_bit.
+Print Assumptions C05_lscq_solo_call.
+Print Assumptions C05_lscq_solo_run.
